@@ -6,4 +6,5 @@ CONSTANTS
   TOLR = 10
   TOLP = 2
   EMIT = FALSE
+  EMITSOL = FALSE
 CHECK_DEADLOCK FALSE
